@@ -310,6 +310,49 @@ def scan_assumptions(cdir, cfg):
 # main
 # --------------------------------------------------------------------------------------------
 
+class Slot:
+    """Cross-process limiter: checks started at the same time (e.g. every quick command at once)
+    would each start several multi-GB CBMC processes and run the machine out of memory, which
+    shows up as undecided obligations.  At most VERIF_SLOTS checks (default: one per 12 GB of
+    RAM, 2..6) run their solvers concurrently; the others wait (at most VERIF_SLOT_WAIT seconds,
+    then proceed anyway)."""
+
+    def __init__(self):
+        self.fd = None
+        self.waited = 0.0
+
+    def acquire(self):
+        import fcntl
+        try:
+            mem_kb = int(re.search(r"MemTotal:\s+(\d+)", open("/proc/meminfo").read()).group(1))
+        except Exception:
+            mem_kb = 32 * 1024 * 1024
+        n = int(os.environ.get("VERIF_SLOTS", "0") or 0) or max(2, min(6, mem_kb // (12 * 1024 * 1024)))
+        limit = float(os.environ.get("VERIF_SLOT_WAIT", "2400"))
+        d = os.path.join(weave.scratch_root(), "wild-verif.slots")
+        os.makedirs(d, exist_ok=True)
+        t0 = time.time()
+        while True:
+            for i in range(n):
+                fd = os.open(os.path.join(d, f"slot-{i}.lock"), os.O_CREAT | os.O_RDWR, 0o666)
+                try:
+                    fcntl.flock(fd, fcntl.LOCK_EX | fcntl.LOCK_NB)
+                    self.fd = fd
+                    self.waited = time.time() - t0
+                    return
+                except OSError:
+                    os.close(fd)
+            if time.time() - t0 > limit:
+                self.waited = time.time() - t0
+                return
+            time.sleep(3)
+
+    def release(self):
+        if self.fd is not None:
+            os.close(self.fd)
+            self.fd = None
+
+
 def load_known():
     p = os.path.join(VERIF, "known_findings.json")
     if not os.path.exists(p):
@@ -360,6 +403,10 @@ def main():
     verus_results = []
     results = {}
     isolated_module = {}
+    slot = Slot()
+    slot.acquire()
+    if slot.waited > 5:
+        log(f"NOTE property={prop}: waited {slot.waited:.0f}s for a solver slot")
     try:
         try:
             weave.sync(scratch)
@@ -616,6 +663,7 @@ def main():
             cov["explanation"] = "bounded stand-in; see bounded_obligations"
         ev = {"property_id": prop, "tier": tier, "seed": seed, "level": level, "coverage": cov,
               "assumptions": assumptions, "wall_s": round(time.time() - t0, 1),
+              "waited_for_solver_slot_s": round(slot.waited, 1),
               "violations": len(viol_out)}
         if not args.no_evidence:
             json.dump(ev, open(os.path.join(EVID, f"{prop}.json"), "w"), indent=1)
@@ -623,6 +671,7 @@ def main():
             f"canaries={len(canaries)} violations={len(viol_out)} undecided={len(undecided)} "
             f"wall={ev['wall_s']}s")
     finally:
+        slot.release()
         if not args.keep:
             weave.cleanup(scratch)
         else:
